@@ -826,7 +826,79 @@ func (g *gen) next() *Op {
 // nextPlain: one non-transactional write (its Idx is set by the caller)
 func (g *gen) nextPlain() *Op { return g.fill(&Op{Idx: g.idx}) }
 
+// targeted: writes that put the index rules of the repaired classes under test in every run -- a
+// check moved to another service of its node, a service id with checks registered under another
+// name, the delete of a check whose stored service name is stale.  nil when the catalog offers none.
+func (g *gen) targeted(op *Op) *Op {
+	_, nodes, _ := g.s.Nodes(nil, nil, "")
+	if len(nodes) == 0 {
+		return nil
+	}
+	n := nodes[g.r.Intn(len(nodes))].Node
+	_, cs, _ := g.s.NodeChecks(nil, n, nil, "")
+	svcs := nodeSvcs(g.s, n)
+	sort.Slice(svcs, func(i, j int) bool { return svcs[i].ID < svcs[j].ID })
+	var svcChecks []*structs.HealthCheck
+	for _, c := range cs {
+		if c.ServiceID != "" && c.Type != "session" {
+			svcChecks = append(svcChecks, c)
+		}
+	}
+	switch g.r.Intn(3) {
+	case 0: // move a service-level check to another service (or to the node level)
+		if len(svcChecks) == 0 {
+			return nil
+		}
+		c := svcChecks[g.r.Intn(len(svcChecks))]
+		to := ""
+		for _, sv := range svcs {
+			if sv.ID != c.ServiceID && g.r.Intn(2) == 0 {
+				to = sv.ID
+			}
+		}
+		op.Kind, op.Node = "check", n
+		op.Checks = []CheckSpec{{ID: string(c.CheckID), Status: g.r.Intn(2), Svc: to, Output: g.r.Intn(2)}}
+		return op
+	case 1: // register a service id that has checks under another name
+		if len(svcChecks) == 0 {
+			return nil
+		}
+		c := svcChecks[g.r.Intn(len(svcChecks))]
+		for _, sv := range svcs {
+			if sv.ID == c.ServiceID && sv.Kind == "" {
+				name := g.pick(uNames[:3])
+				if name == sv.Service {
+					return nil
+				}
+				op.Kind, op.Node = "svc", n
+				op.Svc = &SvcSpec{ID: sv.ID, Name: name, Port: sv.Port, Tags: sv.Tags, Native: sv.Connect.Native}
+				return op
+			}
+		}
+	case 2: // delete (or move) a check whose stored name is stale
+		for _, c := range svcChecks {
+			for _, sv := range svcs {
+				if sv.ID == c.ServiceID && sv.Service != c.ServiceName {
+					if g.r.Intn(2) == 0 {
+						op.Kind, op.Node, op.ChkID = "del_check", n, string(c.CheckID)
+					} else {
+						op.Kind, op.Node = "check", n
+						op.Checks = []CheckSpec{{ID: string(c.CheckID), Status: 0, Svc: "", Output: g.r.Intn(2)}}
+					}
+					return op
+				}
+			}
+		}
+	}
+	return nil
+}
+
 func (g *gen) fill(op *Op) *Op {
+	if g.r.Intn(100) < 12 {
+		if t := g.targeted(op); t != nil {
+			return t
+		}
+	}
 	x := g.r.Intn(100)
 	if _, ns, _ := g.s.Nodes(nil, nil, ""); len(ns) == 0 && g.r.Intn(3) > 0 {
 		x = 63 + g.r.Intn(8) // an empty catalog: register something first
